@@ -46,7 +46,7 @@ def build_native(inst, wd, sanitize, from_ir=None):
         ll2 = os.path.join(wd, 'h_yield.ll')
         instrument_ll(from_ir, ll2)
         cmd = ['clang++-14', '-O1', '-Wno-everything', ll2, '-std=c++14', rt] + incs + \
-              ['-Wl,--wrap=syscall,--wrap=malloc,--wrap=free', '-lpthread', '-o', exe]
+              ['-Wl,--wrap=syscall,--wrap=malloc,--wrap=free,--wrap=_ZNSt6thread15_M_start_threadESt10unique_ptrINS_6_StateESt14default_deleteIS1_EEPFvvE,--wrap=_ZNSt6thread4joinEv,--wrap=_ZNSt6thread6detachEv,--wrap=_ZNSt6thread20hardware_concurrencyEv', '-lpthread', '-o', exe]
         for x in inst.get('native_extra', []):
             cmd.append(os.path.join(engine.ROOT, x))
     else:
@@ -59,7 +59,7 @@ def build_native(inst, wd, sanitize, from_ir=None):
         srcs = [src, rt] + [os.path.join(engine.REPO, s) for s in inst.get('repo_sources', [])]
         for x in inst.get('native_extra', []):
             srcs.append(os.path.join(engine.ROOT, x))
-        cmd = ['clang++-14'] + flags + pre + defs + incs + srcs + ['-Wl,--wrap=syscall,--wrap=malloc,--wrap=free', '-lpthread', '-o', exe]
+        cmd = ['clang++-14'] + flags + pre + defs + incs + srcs + ['-Wl,--wrap=syscall,--wrap=malloc,--wrap=free,--wrap=_ZNSt6thread15_M_start_threadESt10unique_ptrINS_6_StateESt14default_deleteIS1_EEPFvvE,--wrap=_ZNSt6thread4joinEv,--wrap=_ZNSt6thread6detachEv,--wrap=_ZNSt6thread20hardware_concurrencyEv', '-lpthread', '-o', exe]
     rc, out, err, t = engine.sh(cmd, timeout=600)
     if rc != 0:
         return None, 'native build failed: ' + err[-1500:]
